@@ -18,6 +18,8 @@ Not decided: rounding at the LERP/SLERP switch, leading/trailing NaN runs (outsi
 Added after refactoring round 3 (DESIGN.md 6.9):
  NANFILL.empty  run[0] of np.split(<NaN indices>) is reached only under a test that some NaN index exists (np.split of an empty array yields one empty run,
             so a gap-free array used to raise IndexError: fixed in /repo, 3ec79bf).
+Added after seeding rounds 5 and 6 and refactoring round 4 (DESIGN.md 6.10-6.12):
+ NANFILL.mask / .options / .sample and TWIN.jumps.sample  gap filling and sign-jump removal decided by interpretation with recorders / on sign patterns.
 """
 import ast
 import numpy as np
